@@ -61,6 +61,8 @@ def gen_model(rng, modname, profile="orm"):
             fd = {"name": fname, "kind": kind, "target": target}
             if kind in OPT_DEFAULTS and rng.random() < 0.5:
                 fd["dflt"] = True       # an Optional field whose default is not None
+            if kind.startswith("opt_") or kind == "self_opt":
+                fd["optspell"] = rng.choice([0, 0, 0, 1, 2, 3])      # how the Optional is written
             if profile == "rt" and kind != "private" and rng.random() < 0.12:
                 fd["kw_only"] = True    # dataclass field(kw_only=True): a keyword-only constructor argument
             fields.append(fd)
@@ -104,8 +106,19 @@ def _ancestors_and_self(name, classes, parent):
 OPT_DEFAULTS = {"opt_int": "7", "opt_str": "'dflt'", "opt_float": "2.5", "opt_enum": "Color.G"}
 
 
+def respell_optional(ann, spelling):
+    """Optional[X] written as Union[X, None], Union[None, X] or X | None (the same type)"""
+    if not spelling or not ann.startswith("Optional[") or not ann.endswith("]"):
+        return ann
+    inner = ann[len("Optional["):-1]
+    if inner.startswith('"'):           # a quoted forward reference cannot take part in the | operator
+        spelling = min(spelling, 2)
+    return {1: f"Union[{inner}, None]", 2: f"Union[None, {inner}]", 3: f"{inner} | None"}[spelling]
+
+
 def annotation(f, quote=False):
     ann, dflt = _annotation(f, quote)
+    ann = respell_optional(ann, f.get("optspell", 0))
     if f.get("kw_only"):
         # a keyword-only constructor argument
         dflt = dflt[:-1] + ", kw_only=True)" if dflt.startswith("field(") else f"field(default={dflt}, kw_only=True)"
@@ -137,7 +150,7 @@ def _annotation(f, quote=False):
 
 def render(spec, postponed=True):
     lines = (["from __future__ import annotations"] if postponed else []) + ["from dataclasses import dataclass, field",
-             "from typing_extensions import List, Optional, Set, Type", "from enum import Enum",
+             "from typing_extensions import List, Optional, Set, Type, Union", "from enum import Enum",
              "from datetime import datetime", "", "", "class Color(Enum):", "    R = 'r'", "    G = 'g'", "    B = 'b'", "", ""]
     # python needs a parent class defined before its child: emit in an order that respects inheritance but is
     # otherwise the (random) declaration order -> many forward references in annotations
@@ -205,7 +218,7 @@ def render_split(spec):
         other = "b" if s_ == "a" else "a"
         names_other = [n for n, sd in side.items() if sd == other]
         lines = ["from __future__ import annotations", "from dataclasses import dataclass, field",
-                 "from typing_extensions import List, Optional, Set, Type, TYPE_CHECKING", "from enum import Enum",
+                 "from typing_extensions import List, Optional, Set, Type, Union, TYPE_CHECKING", "from enum import Enum",
                  "from datetime import datetime", f"from {spec['module']}_enum import Color", ""]
         if names_other:
             lines += ["if TYPE_CHECKING:", f"    from {spec['module']}_{other} import " + ", ".join(names_other), ""]
